@@ -3385,6 +3385,8 @@ impl Zeroconf {
                     out.add_question(q.entry_name(), q.entry_type());
                 }
                 out.clear_cache_flush_bits();
+                // A legacy querier matches the response to its query by the ID.
+                out.set_unicast();
             }
 
             if let Err(InternalError::IntfAddrInvalid(intf_addr)) = send_dns_outgoing(
@@ -3879,7 +3881,8 @@ impl Zeroconf {
     }
 
     fn exec_command_register_resend(&mut self, fullname: String, if_index: u32) -> MyResult<()> {
-        let Some(info) = self.my_services.get_mut(&fullname) else {
+        // `my_services` is keyed by the lower case full name.
+        let Some(info) = self.my_services.get_mut(&fullname.to_lowercase()) else {
             trace!("announce: cannot find such service {}", &fullname);
             return Ok(());
         };
